@@ -520,6 +520,27 @@ func genC20(tier string, rng *Rng) {
 			}
 		}
 	}
+	// 2b. LONG strings: the columns of a line add up past 255, 256, 511, 512 in every font and mode (seed
+	// C20-13: StrWidth summed the glyph columns in a byte - right up to 42 characters of the 5x7 font,
+	// wrapping from the 43rd)
+	for f := 0; f < 3; f++ {
+		for _, p := range []bool{true, false} {
+			for _, ch := range []string{"W", "M", "i", "Wi", "a b"} {
+				for _, n := range []int{31, 32, 33, 42, 43, 44, 51, 52, 64, 86, 128} {
+					str := strings.Repeat(ch, (n+len(ch)-1)/len(ch))[:n]
+					for _, sz := range [][3]int{{1, 1, 0}, {1, 1, 1}, {2, 1, 0}} {
+						if sz[0] == 2 && n > 64 {
+							continue
+						}
+						in := c20in{font: f, prop: p, spacing: sz[2], h: sz[0], v: sz[1], cx: 3, cy: 1, dx: 2, dy: 0, str: []byte(str)}
+						c20fit(&in, 2, 1)
+						c20note(in, "long")
+						c20run(in)
+					}
+				}
+			}
+		}
+	}
 	// 3. random strings, length 0-24, all bytes incl. invalid UTF-8
 	c20class = 2
 	n := 4000
